@@ -74,7 +74,7 @@ class ReachingDefs(object):
                         did += 1
                 elif k == "call" and db is not None:
                     # locals passed to non-const reference parameters are (weak) definitions
-                    tgt = db.funcs.get(n.get("cm"))
+                    tgt = db.func_of_call(f, n)
                     if tgt is None:
                         c = db.by_qn.get(n.get("c"), ())
                         tgt = c[0] if len(c) == 1 else None
